@@ -12,4 +12,33 @@ CLAIMS = {
               'response or the synthesised 504) on what the implementation did.'),
         note=COMMON_NOTE),
 }
+CLAIMS.update({
+    'C01': dict(
+        text=('Theorems C01_local (for every request, stored entry and clock reading: the hit decision answers from the store '
+              'without an origin call only if spec age < spec lifetime (request max-age/min-fresh applied) or an explicit '
+              'allowance — max-stale, only-if-cached, the stored stale-while-revalidate window — covers the staleness; saturating '
+              'arithmetic), C01_age_conservative, C01_lifetime_conservative, C01_only_by_decision. Unbounded in header values and '
+              'instants; history level is covered by the extracted monitor mon_C01 evaluated on the real transport each run.'),
+        note=COMMON_NOTE + ' C01_local assumes of the stored entry what every entry written by the transport satisfies (parsable Date, status not 304).'),
+    'C02': dict(
+        text=('Theorems C02_local (answering from the store implies the specification\'s needs_validation is false: unqualified no-cache, '
+              'stale+must-revalidate, request no-cache, exceeded request max-age are never overridden), C02_no_stale_fallback, '
+              'C02_mandatory_validation_outcome (mandatory validation that fails returns the origin\'s answer or error, never the stored response), '
+              'C02_validation_request (every origin call carries the client\'s method, URL and header fields plus only If-None-Match / '
+              'If-Modified-Since from the stored validators; request values are immutable in the model). Monitor mon_C02 on the real transport each run.'),
+        note=COMMON_NOTE + ' That Go\'s cloneRequest copies the header map (client request left unmodified) is observed by the harness, not proved.'),
+    'C10': dict(
+        text=('Theorems C10_no_panic / C10_no_panic_background (no panic node on any path of the round-trip and background programs, for every '
+              'store answer incl. errors, undecodable values and indexes with null elements, every origin answer and clock reading), '
+              'C10_err_only_origin (an error is returned only on a path where an origin call failed; never neither-response-nor-error), '
+              'C10_store_faults (unreadable index => exactly one origin call with the client request, its reply is returned). '
+              'Partial: panics/hangs inside net/http, encoding/json, slog and goroutine scheduling are not expressible in the model; '
+              'they are exercised by the run (recover() around RoundTrip, body-stream failures, monitor mon_C10).'),
+        note=COMMON_NOTE),
+    'C13': dict(
+        text=('Theorems C13_only_eligible_failures, C13_shape, C13_within_window (CanStaleOnError over the stored response\'s and the request\'s '
+              'stale-if-error implies the specification window  age(now\') < lifetime + N  in saturating arithmetic, for all values), '
+              'C13_not_when_validation_demanded. Monitor mon_C13 (both directions, boundary instants) on the real transport each run.'),
+        note=COMMON_NOTE),
+})
 NOT_YET = {}
